@@ -107,6 +107,9 @@ struct Gen
         const bool decProps = pr == "C01" || pr == "C02" || pr == "C04" || pr == "C05" || pr == "C06" || pr == "C17" || pr == "C18" || pr == "C16" || pr == "C03";
         const bool encProps = pr == "C01" || pr == "C07" || pr == "C08" || pr == "C09" || pr == "C10";
         const bool statProps = pr == "C16";
+        // the wall clock the library would see jumps ahead (ms .. days) before every delivery and operation
+        if (pr != "C13" && pr != "C03" && rng.chance(1, 3))
+            cfg().set("clockjump", static_cast<int64_t>(1 + rng.below(1000000)));
         if (!decProps && !encProps && !statProps)
             return;
         if (plan.cfgGet("wraprun", 0) || plan.cfgGet("nolife", 0))
